@@ -587,7 +587,7 @@ def check(ex, ctx):
         lines = ["%d %s %s %s" % (i, fmt(s), fmt(e), fmt(du)) for i, d, s, e, du in exp]
         got = ctx.stdout.getvalue().splitlines()
         if got != lines * len(ctx.printers) and sorted(got) != sorted(lines * len(ctx.printers)):
-            return "printed lines %r, expected %r" % (got, lines)
+            return "printed %d lines %s, expected %d %s" % (len(got), _short(got), len(lines), _short(lines))
         if len(ctx.printers) == 1 and got != lines:
             return "printed lines out of order: %r" % (got,)
     for j in (ctx.joiners if "AudioEventsJoinerWorker" not in tolerate else ()):
